@@ -316,11 +316,103 @@ pub fn check_after_history(tape: &[u16], rc: &mut RCase) -> Result<(), Failure> 
     Ok(())
 }
 
+/// The facade keeps state between calls (the AST, the analysis report, the lowered IR, which `apply_args`
+/// rewrites in place). A history of calls on one `Workspace` is interpreted; whenever it lowers, the encoded
+/// IR must be what a fresh workspace produces from the same source.
+pub fn check_workspace(tape: &[u16], rc: &mut RCase) -> Result<(), Failure> {
+    let mut t = Tape::new(tape);
+    let mut feat = Feat::core();
+    feat.withdrawals = true;
+    let case = Gen::new(&mut t, feat).generate();
+    let (plain, _) = super::render_pair(&case, &mut t);
+    let Some(reference) = encode_all(&plain) else {
+        rc.label("does_not_lower(not judged)");
+        return Ok(());
+    };
+    let n_ops = 2 + t.pick(6);
+    let ops: Vec<usize> = (0..n_ops).map(|_| t.weighted(&[1, 1, 4, 3])).collect();
+    let names = ["parse", "analyze", "lower", "apply_args"];
+    let history: Vec<&str> = ops.iter().map(|o| names[*o]).collect();
+    let rendered = || json!({"source": plain, "calls": history});
+    let outcome = crate::util::guard(|| -> Result<(usize, bool), String> {
+        let mut ws = tx3_lang::Workspace::from_string(plain.clone());
+        let mut lowered_checks = 0usize;
+        let mut args_applied = false;
+        for (k, op) in ops.iter().enumerate() {
+            match op {
+                0 => {
+                    let _ = ws.parse();
+                }
+                1 => {
+                    let _ = ws.analyze();
+                }
+                2 => {
+                    if ws.lower().is_err() {
+                        continue;
+                    }
+                    let Some(ast) = ws.ast() else { continue };
+                    let mut got = String::new();
+                    for tx in ast.txs.iter() {
+                        let Some(tir) = ws.tir(&tx.name.value) else { return Err(format!("call {}: lower() left no IR for {}", k + 1, tx.name.value)) };
+                        let (bytes, _) = tx3_tir::encoding::to_bytes(tir);
+                        got.push_str(&tx.name.value);
+                        got.push(':');
+                        got.push_str(&hex::encode(bytes));
+                        got.push(';');
+                    }
+                    if got != reference {
+                        return Err(format!(
+                            "call {} (lower) after {:?}: the workspace holds {} ; a fresh workspace lowers the source to {}",
+                            k + 1,
+                            &history[..k],
+                            crate::util::trunc(&got, 300),
+                            crate::util::trunc(&reference, 300)
+                        ));
+                    }
+                    lowered_checks += 1;
+                }
+                _ => {
+                    // bind every parameter of every transaction (the IR held by the workspace is rewritten in place)
+                    let mut args = std::collections::BTreeMap::new();
+                    if ws.lower().is_ok() {
+                        if let Some(ast) = ws.ast() {
+                            for tx in ast.txs.iter() {
+                                if let Some(tir) = ws.tir(&tx.name.value) {
+                                    for (k2, ty) in tx3_tir::reduce::find_params(tir) {
+                                        let mut tt = Tape::new(&[]);
+                                        args.insert(k2, super::c06::arg_for(&ty, &mut tt));
+                                    }
+                                }
+                            }
+                        }
+                    }
+                    if ws.apply_args(&args).is_ok() && !args.is_empty() {
+                        args_applied = true;
+                    }
+                }
+            }
+        }
+        Ok((lowered_checks, args_applied))
+    });
+    match outcome {
+        Err(p) => {
+            // the facade unwraps lowering errors; valid generated programs lower (checked above)
+            Err(Failure::new(format!("panic:{}", p.sig()), p.message, rendered()))
+        }
+        Ok(Err(detail)) => Err(Failure::new("workspace_lowering_depends_on_earlier_calls", detail, rendered())),
+        Ok(Ok((n, applied))) => {
+            rc.label("workspace_history_judged");
+            rc.record(hash64(&format!("{}{:?}", plain, history)), n >= 1 && applied, rendered);
+            Ok(())
+        }
+    }
+}
+
 pub fn run(tier: Tier, seed: u64) -> Report {
     let mut r = Report::new("C18", tier, seed);
     r.rule = "every repository example that lowers and generated programs weighted towards cardano:: directives with >=2 \
               fields; each encoded 20 times in one process; a sample additionally in 3 fresh child processes and through 3 \
-              runs of the built tx3c (TII file bytes). Phase after_other_programs: the subject is encoded before and after 1-3 other programs (valid, or accepted-but-not-lowerable) went through the front end on the same thread. Phase tx3c_command_lines: generated programs x generated command lines (protocol metadata, forced profiles and per-profile env files, profile names in several spellings), 5 runs each. Oracle: one byte string over all repetitions. distinct = hash(source); \
+              runs of the built tx3c (TII file bytes). Phase workspace_call_histories: histories of parse / analyze / lower / apply_args calls on one Workspace; every lower() must leave the encoding a fresh workspace produces. Phase after_other_programs: the subject is encoded before and after 1-3 other programs (valid, or accepted-but-not-lowerable) went through the front end on the same thread. Phase tx3c_command_lines: generated programs x generated command lines (protocol metadata, forced profiles and per-profile env files, profile names in several spellings), 5 runs each. Oracle: one byte string over all repetitions. distinct = hash(source); \
               non-trivial = a directive with >=2 fields or >=2 transactions"
         .into();
     r.assumptions = vec!["processes are children of the same binary on this machine".into()];
@@ -333,6 +425,7 @@ pub fn run(tier: Tier, seed: u64) -> Report {
     });
     r.explore("generated_in_process", tier.pick(6_000, 200_000), 500, &|t, rc| check_case(t, rc, false));
     r.explore("generated_cross_process", tier.pick(120, 4_000), 500, &|t, rc| check_case(t, rc, true));
+    r.explore("workspace_call_histories", tier.pick(4_000, 120_000), 700, &|t, rc| check_workspace(t, rc));
     r.explore("after_other_programs", tier.pick(3_000, 100_000), 900, &|t, rc| check_after_history(t, rc));
     r.explore("tx3c_command_lines", tier.pick(400, 12_000), 500, &|t, rc| check_command_line(t, rc));
     r
@@ -345,6 +438,8 @@ pub fn replay(phase: &str, tape: &[u16], seed: u64) -> Report {
         let ex = examples();
         let i = tape[3] as usize;
         r.enumerate(phase, 1, &|_, rc| judge(&ex[i].1, &ex[i].0, true, rc).map(|_| ()));
+    } else if phase == "workspace_call_histories" {
+        r.explore_list(phase, &[tape.to_vec()], &|t, rc| check_workspace(t, rc));
     } else if phase == "after_other_programs" {
         r.explore_list(phase, &[tape.to_vec()], &|t, rc| check_after_history(t, rc));
     } else if phase == "tx3c_command_lines" {
